@@ -40,3 +40,11 @@ func (s *Service) ProposerConfig(ctx context.Context,
 	}
 	return s.executionConfig.ProposerConfig(ctx, account, pubkey, s.fallbackFeeRecipient, s.fallbackGasLimit)
 }
+
+// hasExecutionConfig returns true if there is a current execution configuration.
+func (s *Service) hasExecutionConfig() bool {
+	s.executionConfigMu.RLock()
+	defer s.executionConfigMu.RUnlock()
+
+	return s.executionConfig != nil
+}
